@@ -117,3 +117,31 @@ Theorem C12_size_mismatch_exits {T} (Ops : NumOps T) (vals : list T) (rw : list 
   (length vals = length rw -> two_col rw = true -> exists v, gl_integrate_values Ops vals rw = Ok v).
 Proof. exact (size_mismatch_exits Ops vals rw). Qed.
 Print Assumptions C12_size_mismatch_exits.
+
+(** Re-entrant use (the integrand itself calls the library, as Integrate_2D/3D do; [T -> res T] integrands end
+    the call at their first non-returning evaluation).  An integrand that always returns gives the plain
+    (func, rule) overload, and a nest of depth one is the interval overload. *)
+Theorem C12_reentrant_pure {T} (Ops : NumOps T) (f : T -> T) :
+  (forall rw, gl_integrate_funM Ops (fun x => Ok (f x)) rw = gl_integrate_fun Ops f rw) /\
+  (forall n a b, gl_nest Ops [((KInt, n), (a, b))] (fun xs => Ok (f (nth0 Ops xs 0))) [] = gl_integrate Ops f a b n).
+Proof. exact (conj (funM_pure Ops f) (nest_depth_one Ops f)). Qed.
+Print Assumptions C12_reentrant_pure.
+
+(** "The three Integrate_Gauss_Legendre overloads give the same value for the same rule" at every nesting depth:
+    two nested integrations whose levels have pairwise the same order and limits return the same outcome whichever
+    overload each level uses ((func,a,b,n), (func,rule), (values,rule), default order), for every innermost
+    integrand, including one that terminates the process *)
+Theorem C12_nest_overloads_agree {T} (Ops : NumOps T) (core : list T -> res T) levs levs' :
+  Forall2 lev_same levs levs' -> forall xs, gl_nest Ops levs core xs = gl_nest Ops levs' core xs.
+Proof. exact (nest_overloads_agree Ops core levs levs'). Qed.
+Print Assumptions C12_nest_overloads_agree.
+
+(** "mismatched value and rule lengths are rejected" wherever the call is made: a guard reached by the innermost
+    integrand (e.g. [gl_integrate_values vals rw] with [length vals <> length rw], C12_size_mismatch_exits)
+    terminates the whole nested integration, however deep and through whichever overloads *)
+Theorem C12_nest_exit_propagates {T} (Ops : NumOps T) (core : list T -> res T) levs :
+  (forall xs, core xs = Exit) ->
+  List.Forall (fun l : @gl_lev T => exists rw, gl_rule Ops (gl_order (fst (fst l)) (snd (fst l))) (fst (snd l)) (snd (snd l)) = Ok rw /\ rw <> []) levs ->
+  forall xs, gl_nest Ops levs core xs = Exit.
+Proof. exact (nest_exit_propagates Ops core levs). Qed.
+Print Assumptions C12_nest_exit_propagates.
